@@ -50,6 +50,9 @@ type icache struct {
 
 func (i *icache) set(k string, v Account) {
 	cpy := v
+	// the key may alias a request buffer that is reused after the
+	// request, keep a private copy
+	k = strings.Clone(k)
 	i.Lock()
 	i.items[k] = item{
 		exp:   time.Now().Add(i.expire),
@@ -79,7 +82,9 @@ func (i *icache) update(k string, props MutableProps) {
 		// refresh the expiration date
 		item.exp = time.Now().Add(i.expire)
 
-		i.items[k] = item
+		// assigning through a string key replaces the stored key as
+		// well, so it must not alias the request buffer
+		i.items[strings.Clone(k)] = item
 	}
 }
 
